@@ -19,11 +19,14 @@
 (*    (history/MC_Encoding_hash_memo.cfg: TLC finds the stale hash), and   *)
 (*    "fields_set" = Term.__hash__ over the explicitly passed fields       *)
 (*    (history/MC_Encoding_hash_fields_set.cfg: refuted on pairs and, via  *)
-(*    the dictionary of the encoder, on ImplEncoder).                      *)
+(*    the dictionary of the encoder, on ImplEncoder).  EqMode = "uri"      *)
+(*    (history/MC_Encoding_eq_uri.cfg): an equality that identifies terms  *)
+(*    by URI while the hash stays on the name -- refuted on the pairs.     *)
 (***************************************************************************)
 EXTENDS Encoding, TLC, Json
 CONSTANTS MaxVocab, MaxTags, NTags, SmallTags, KeyMode, HashMode,
           NearPairs,   \* derived objects meet: TRUE = partners differing in <= 1 field, FALSE = model-equal partners only
+          EqMode,      \* "structural" (the code) | "uri" (control: terms with the same URI are equal whatever their names)
           ProvTags,    \* tag lists up to this length meet vocabularies of <= 2 tags written differently (vprov # qprov ...)
           WideProv     \* partner provenance: TRUE = fresh / deep_copy / revalidate / same as the first, FALSE = fresh / same
 VARIABLES c, pc, i, map, cls, multi, pred
@@ -57,9 +60,12 @@ HashMiss == HashMode = "fields_set" /\ c.vprov # c.qprov
 Lookup(u) == IF ~HashMiss /\ \E e \in map : e[1] = Key(u) THEN <<(CHOOSE e \in map : e[1] = Key(u))[2]>> ELSE <<>>
 
 Init == /\ \/ \E v \in Vocabs, ts \in TagLists : (Len(v) < MaxVocab \/ Len(ts) <= SmallTags) /\ c = EncCase(v, ts)
+           \* tags on terms that carry a URI (equal URI / different name, equal name / different URI) and one without
+           \/ \E v \in {w \in SeqsUpTo(UriTags, 2) : Injective(w)}, ts \in SeqsUpTo(UriTags, 2) : c = EncCase(v, ts)
            \/ \E v \in Vocabs, ts \in TagLists : \E vp \in Written, qp \in Written :
                  Len(v) <= 2 /\ Len(ts) <= ProvTags /\ <<vp, qp>> # <<"fresh", "fresh">> /\ c = EncCaseP(v, ts, vp, qp)
-           \/ \E k \in 1..Len(ClassNames) : \E x \in Objects(k), y \in Objects(k) : c = PairCase(k, x, Fresh, y, Fresh)
+           \/ \E k \in 1..Len(ClassNames) : \E x \in Objects(k), y \in Objects(k) :
+                 (k # 1 \/ DiffCount(x, y) <= 2) /\ c = PairCase(k, x, Fresh, y, Fresh)      \* Term: at most two fields apart
            \/ \E k \in 1..Len(ClassNames) : \E x \in Objects(k), y \in Objects(k) :
                  \E px \in Provs(k) \ {Fresh} : \E py \in PartnerProvs(px) :
                     (IF NearPairs THEN Near(k, x, y) ELSE ModelEq(k, x, y)) /\ c = PairCase(k, x, px, y, py)
@@ -111,7 +117,7 @@ FinalHash(who, x) == IF HashMode = "memo"
                      THEN HashKey("code", c.cls, x, who) \o
                           (IF c.cls <= 3 THEN <<(IF who = 1 THEN c.px ELSE c.py) = Explicit>> ELSE <<>>)
                      ELSE HashKey(HashMode, c.cls, x, who)
-ImplHashSound == (~IsEnc /\ pc = "done") => (ModelEq(c.cls, c.x, c.y) => FinalHash(1, c.x) = FinalHash(2, c.y))
+ImplHashSound == (~IsEnc /\ pc = "done") => (EqUnder(EqMode, c.cls, c.x, c.y) => FinalHash(1, c.x) = FinalHash(2, c.y))
 (* laws of Req, once per case *)
 Laws == (IsEnc /\ pc = "cls" /\ i = 1) =>
            /\ LawRoundTrip(c.vocab) /\ LawEncodeIff(c.vocab) /\ LawOOV(c.vocab, c.tags)
